@@ -20,7 +20,31 @@ INCR = {
  "C13": "Histories over a generated two-project layout (producer in an imported project, identical relative paths and identical command text in both directories) resolved by the real loader+resolver; the consumer's denoted input set in the specification includes the producer's outputs in the producer's directory.",
  "C18": "Incremental.tla action property RecIndependent; histories interleave runs, failures, corruptions of several targets (prefix-related names, imported project reached from both entry directories) and compare each target's decisions with its own abstract record.",
 }
+CFG = {
+ "C09": "TLC model-checks Resolver.tla (ir.rs add_target as a step machine with ancestor chain, on every digraph incl. cycles/self-loops over two projects, both reference kinds, unknown projects/targets) against ConfigRules.tla (VerdictRight, Bounded = never hangs); generated graphs are rendered to project files, resolved by zinoma's own loader+resolver, and TLC compares verdict, closure and per-target dependencies with ConfigRules through ConfigObs.tla.",
+ "C14": "TLC model-checks Loader.tla (add_project recursion, imports iterated in every order) against ConfigRules.ArrangementOK; generated import arrangements (cycles, self-imports, missing dirs, unnamed/misnamed/homonymous projects), document structures (every key subset per target, unknown keys, invalid names) and byte-level mutants are loaded 2-4 times each; ConfigObs.tla compares verdicts with the rules and requires identical answers. The byte-level part is exploration with a trivial oracle.",
+ "C19": "ConfigRules.CliNames / Denotes / Resolve define the accepted command-line names and what each spelling denotes; ConfigObs.tla compares zinoma's available names, the parsed roots (both spellings -> one target) and every resolved reference (bare = same project) on generated projects with overlapping names, named and unnamed root.",
+}
+RES = {
+ "C12": "ResourceRules.tla defines MustRemove / MayRemove (three-valued where the statement is silent) and TLC checks its lemmas (CleanWithin, CleanIsDenoted, NeverThroughLink) over every tree on a small universe; generated trees x output declarations are materialised and cleaned by zinoma's own clean code; the full before/after snapshot is compared by TLC through ResourcesObs.tla.",
+ "C15": "ResourceRules.tla defines Must / MayList; lemmas (Monotone, NoWorkDir, NormIdempotent, MissingContributesNothing) checked by TLC; generated trees x declarations (through zinoma's own extension normalisation) are listed by fs::list_files_in_resources and compared by TLC.",
+ "C16": "ResourceRules.Relevant; the REAL TargetWatcher (real inotify) is driven with create/modify/rename/delete on generated names (editor temporaries, .zinoma, multi-dot, non-UTF-8); each operation is closed by a sentinel edit so that 'not reported' and 'watcher still alive' are facts; TLC compares with Relevant.",
+}
 checks = []
+for eng, table, tech in (("config", CFG, "explicit TLA+ specs (Resolver.tla, Loader.tla, ConfigRules.tla) checked by TLC + TLC validation of zinoma's answers against ConfigObs.tla"),
+                         ("resources", RES, "declarative TLA+ rules (ResourceRules.tla) with TLC-checked lemmas + TLC validation of zinoma's listing/cleaning/watching against ResourcesObs.tla (generated-case use of TLC)")):
+    for pid, text in table.items():
+        checks.append({
+            "property_id": pid,
+            "quick_cmd": "./check %s --tier quick" % pid,
+            "thorough_cmd": "./check %s --tier thorough" % pid,
+            "evidence_file": "evidence/%s.json" % pid,
+            "replay_cmd_template": "./check %s --replay {path}" % pid,
+            "engine": eng,
+            "level_claimed": {"category": "model_checking", "text": text, "design_ref": "DESIGN.md section 6 (%s), sections 3.4-3.5" % pid},
+            "level_note": "The algorithms/rules are exhaustively checked only within small bounds (2-3 targets, 2-3 directories, 9-path universe); the binding is by generated cases answered by the real code and compared by TLC; parsers (serde_yaml), hash functions and the file system are trusted; watcher cases depend on real inotify timing and are sentinel-closed.",
+            "technique": tech,
+        })
 for pid, text in INCR.items():
     checks.append({
         "property_id": pid,
@@ -45,6 +69,7 @@ for pid, text in ENGINE.items():
         "level_note": "Exhaustive only within the stated TLC bounds (all graphs N<=3, N=2 for the combined/liveness configurations); the binding to the code is by executing the real engine under harness-chosen schedules with virtual build shells and validating each recorded execution with TLC; real shells/inotify are covered by the real-binary leg where present.",
         "technique": "explicit TLA+ spec (Engine.tla) checked by TLC + TLC trace validation of implementation executions against EngineObs.tla",
     })
+checks.sort(key=lambda c: c["property_id"])
 claimed = {c["property_id"] for c in checks}
 hooks = subprocess.run(["git", "-C", "/repo", "log", "--format=%H %s"], capture_output=True, text=True).stdout.splitlines()
 m = {
@@ -57,7 +82,9 @@ m = {
  "engines": [{"name": "engine", "path": "lib/engine_suite.py", "serves_properties": sorted(ENGINE),
               "kind_free_text": "TLC on spec/Engine.tla; zv harness (harness/src/engine_driver.rs) controlling the real engine; real binary with hooks; TLC trace validation against spec/EngineObs.tla"},
              {"name": "incremental", "path": "lib/incr_suite.py", "serves_properties": sorted(INCR),
-              "kind_free_text": "TLC on spec/Incremental.tla; zv incr (harness/src/misc_drivers.rs) running generated histories on real files; TLC trace validation against spec/IncrementalObs.tla"}],
+              "kind_free_text": "TLC on spec/Incremental.tla; zv incr (harness/src/misc_drivers.rs) running generated histories on real files; TLC trace validation against spec/IncrementalObs.tla"},
+             {"name": "config", "path": "lib/cfg_suite.py", "serves_properties": sorted(CFG), "kind_free_text": "TLC on Resolver.tla / Loader.tla; zv config; ConfigObs.tla"},
+             {"name": "resources", "path": "lib/res_suite.py", "serves_properties": sorted(RES), "kind_free_text": "TLC on Resources.tla; zv res / zv watch; ResourcesObs.tla"}],
  "checks": checks,
  "notes": "Genuine defects repaired in /repo are listed in known_findings.json (status fixed); open findings are reported as KNOWN-FINDING lines.",
  "not_applicable": [{"property_id": p, "reason": "check not built yet (construction in progress); will be claimed once its TLA+ spec and binding exist"} for p in props if p not in claimed],
